@@ -23,10 +23,11 @@ Section Cleaner.
     Cur K b n E0 ex m0 (ol v ++ E) W m -> get m o = Some x ->
     (v <> None -> o_ismap x = false) ->
     (forall t, v = Some t -> LocOk m (Some o) true t) ->
-    (o_box x <> BNotYet \/ o_vst x = VDropping) -> (o_vst x <> VDropping \/ ex = Some o) ->
+    (o_box x <> BNotYet \/ o_vst x = VDropping) -> (o_vst x <> VDropping \/ ex = Some o) -> o_vst x <> VUninit ->
+    (inD m o = false \/ o_vst x = VDropped \/ ex = Some o) ->
     Cur K b n E0 ex m0 (ol (o_cleaner x) ++ E) W (upd o (fun x => x <| o_cleaner := v |>) m).
   Proof.
-    intros C Hx Hnm Hok Hny Hvd. pose proof (cur_inv _ _ _ _ _ _ _ _ _ C) as HI.
+    intros C Hx Hnm Hok Hny Hvd Hnu Hdd. pose proof (cur_inv _ _ _ _ _ _ _ _ _ C) as HI.
     assert (HS : heap_st m (upd o (fun x => x <| o_cleaner := v |>) m)).
     { eapply heap_st_alter; [reflexivity|]. intros y Hy. repeat split; auto. }
     eapply (Cur_move K b n E0 ex m0 (ol v ++ E) W (ol (o_cleaner x) ++ E) m _ o _ C); try reflexivity.
@@ -264,7 +265,7 @@ Section Resolve.
     - destruct r as [i|p j]; cbn in *.
       + rewrite <- (proj1 (sv_lens _ _ _ _ _ HI)). exact Hi.
       + destruct Hi as (x & Hx & Hj). exists x. split; [exact Hx|]. split; [exact Hj|].
-        destruct Hh as (y & Hy & Hb & Hv & _). assert (y = x) by congruence. subst. split; congruence.
+        destruct Hh as (y & Hy & Hb & Hv & Hiy & _). assert (y = x) by congruence. subst. repeat split; congruence.
     - intros t Ht Hd. destruct (Hg t Ht) as (x & _ & _ & _ & Hi' & _). congruence.
   Qed.
 
@@ -293,7 +294,7 @@ Section Resolve.
       intros w Hw. cbn in Hw. destruct (wslots m !! i) as [[w'|]|] eqn:Es; cbn in Hw; try discriminate. injection Hw as ->.
       split; [eapply sv_wslots; eauto|]. intros o ->. rewrite wrefs_unfold.
       assert (0 < cnt_w o (wslots m))%nat by (apply cnt_w_pos; eauto). lia.
-    - assert (Hfld : forall g x, get m g = Some x -> (o_box x <> BNotYet \/ o_vst x = VDropping) ->
+    - assert (Hfld : forall g x, get m g = Some x -> (o_box x <> BNotYet \/ o_vst x = VDropping) /\ o_vst x <> VUninit ->
                 forall r, (if decide (j < length (o_wfields x))%nat then Some (RWField g j) else None) = Some r ->
                 (wloc_writable r = true -> widx_valid m r) /\
                 (forall w, read_wloc r m = Some w -> wnomap m (Some w) /\ forall o, w = WTo o -> (0 < wrefs m o)%nat)).
@@ -309,12 +310,13 @@ Section Resolve.
       destruct (get m g) as [x|] eqn:Hx; [|exists None; split; [reflexivity|discriminate]].
       destruct (value_accessible true x) eqn:Ha; [|exists None; split; [reflexivity|discriminate]].
       eexists. split; [reflexivity|]. rewrite Hx. apply (Hfld g x Hx).
-      destruct Hs as [Hs|[(g' & x' & Hs & Hx' & Hb & _)|(g' & x' & Hs & Hx' & Hv)]]; [discriminate | |];
-        injection Hs as <-; assert (x' = x) by congruence; subst x'; [left; congruence | right; exact Hv].
+      destruct Hs as [Hs|[(g' & x' & Hs & Hx' & Hb & Hv & _)|(g' & x' & Hs & Hx' & Hv)]]; [discriminate | |];
+        injection Hs as <-; assert (x' = x) by congruence; subst x';
+        (split; [|congruence]); [left; congruence | right; exact Hv].
     - destruct (node_via_slot_ok _ _ _ _ i HI) as (no & -> & Hno). destruct no as [o|]; [|exists None; split; [reflexivity|discriminate]].
       destruct (Hno o eq_refl) as (Hsl & x & Hx & Hb & Hv & Hi & Hm). rewrite Hx.
       eexists. split; [reflexivity|]. intros r Hr. destruct (decide (j < length (o_wfields x))%nat) as [Hlt|]; [|discriminate].
-      injection Hr as <-. split; [intros _; cbn; exists x; split; [exact Hx|]; split; [exact Hlt|]; left; congruence|].
+      injection Hr as <-. split; [intros _; cbn; exists x; split; [exact Hx|]; split; [exact Hlt|]; split; [left; congruence | congruence]|].
       intros w Hw. cbn in Hw. rewrite Hx in Hw. cbn in Hw.
       destruct (o_wfields x !! j) as [[w'|]|] eqn:Ej; cbn in Hw; try discriminate. injection Hw as ->.
       split; [eapply sv_wfields; eauto|]. intros o' ->. rewrite wrefs_unfold.
